@@ -347,7 +347,7 @@ theorem verifyRW_congr (s s' : St) (t : Tx) (h : ∀ key, curVer s key = curVer 
     funext ki; rw [h]
   rw [this]
 
-theorem admitTx_congrT (s s' : St) (lh : Int) (t : Tx) (h : ObsT s s') : admitTx s lh t = admitTx s' lh t := by
+theorem admission_congrT (s s' : St) (lh : Int) (t : Tx) (h : ObsT s s') : admitTx s lh t = admitTx s' lh t := by
   unfold admitTx checkInputEqualOutput
   rw [checkInputs_congr s s' lh t.ins [] 0 h.U, verifyRW_congr s s' t h.ver]
 
@@ -381,8 +381,8 @@ theorem undoPayFee_congrT (t : Tx) (l : List Out) (off : Nat) (s s' : St) (h : O
     fun key => by rw [undoPayFee_curVer, undoPayFee_curVer, h.ver],
     by rw [a0, b0, h.total], by rw [a3, b3, h.pool]⟩
 
-theorem admitTx_congr' (s s' : St) (lh : Int) (t : Tx) (h : Obs s s') : admitTx s lh t = admitTx s' lh t :=
-  admitTx_congrT s s' lh t h.toT
+theorem admission_congr' (s s' : St) (lh : Int) (t : Tx) (h : Obs s s') : admitTx s lh t = admitTx s' lh t :=
+  admission_congrT s s' lh t h.toT
 
 theorem applyTx_congr' (s s' : St) (t : Tx) (h : Obs s s') : Obs (applyTx s t) (applyTx s' t) := by
   obtain ⟨a1, a2, _⟩ := applyTx_frame s t
